@@ -168,7 +168,8 @@ func (z *reader) Reset(r io.Reader, dict []byte) error {
 		}
 	}
 
-	if z.decompressor == nil {
+	if z.decompressor == nil || haveDict {
+		// a stream with a preset dictionary needs an inflater that honours it
 		if haveDict {
 			z.decompressor = flate.NewReaderDict(z.r, dict)
 		} else {
